@@ -22,6 +22,8 @@ claimed = {
          "§5 C18"),
  "C19": ("SX", "Leak oracle at quiescence on every schedule (deviation bound 1 quick / 2 thorough) of 58 core scenarios (each policy x success/failure/rejection/timeout/cancellation, hedge losers returning late, cancellations tied with delay ends, repetitions) and 200+ HTTP/gRPC scenarios with caller contexts that never end: library threads still parked or library timers still pending once all user code has returned are leaks; responses not returned must be closed.",
          "§5 C19"),
+ "C12": ("PX", "Full enumeration of the truth table: all 65 ordered subsets of the four condition kinds x 6 registration variants (value / non-pointer / pointer type target; single and multi-argument calls) x 32 outcomes (result 0/1 x nil, sentinel, wrapped, joined, typed by value and by pointer receiver, nested wrap/join, unrelated), each exercised on the real fallback, retry policy, breaker (executions and RecordResult/RecordError), retry abort conditions and hedge cancel conditions and compared with the documented rules using the standard library's matchers: 12,480 cases, 62,400 policy runs.",
+         "§5 C12"),
 }
 na = {}
 props = [json.loads(l) for l in open('/verif/properties.jsonl')]
